@@ -1,0 +1,11 @@
+//go:build verif
+
+package onet
+
+import "go.dedis.ch/onet/v3/network"
+
+// VerifC20GetWSHostPort exposes getWSHostPort to the C20 (address parsing)
+// correspondence harness of /verif.
+func VerifC20GetWSHostPort(si *network.ServerIdentity, global bool) (string, error) {
+	return getWSHostPort(si, global)
+}
